@@ -429,6 +429,8 @@ def run(ctx):
     traced = trace_tables(ctx)
     build_and_audit(ctx, PROP, MODULES, THEOREMS, gen_obs=True)
     exec_correspondence(ctx)
+    from props import C01_einsum
+    C01_einsum.run_suites(ctx)
     table_search(ctx, traced)
     grbs_search(ctx)
     exec_search(ctx)
